@@ -246,6 +246,70 @@ def check_c01(chk, args):
         'only) and judged by TLC with PyTerm!TEq(Denote(obs), value)'))
     chk.assumptions += ['ast.parse is the trusted lexer/parser; Python eval + typed equality is run as a cross-oracle and '
                         'any disagreement with the TLA+ verdict is a machinery error']
+    printers_binding(chk, vals)
+
+
+def model_term(v, sort):
+    """Value term for Printers.tla: PyTerm value term with the repr text of number leaves attached."""
+    t = type(v)
+    if t is int:
+        return ['int', str(v), pyterm.codes(int.__repr__(v))]
+    if t is float:
+        return ['float', repr(v), pyterm.codes(float.__repr__(v))]
+    if t in (list, tuple, set, frozenset):
+        return [t.__name__, [model_term(x, sort) for x in v]]
+    if t is dict:
+        keys = list(v.keys())
+        if sort:
+            try:
+                keys = sorted(keys)
+            except TypeError:
+                return ['dictany', []]
+        return ['dict', [[model_term(k, sort), model_term(v[k], sort)] for k in keys]]
+    return pyterm.value_term(v)
+
+
+def printers_binding(chk, vals):
+    """spec -> code binding of the concrete pipeline model: Printers.tla + LayoutImpl.tla predict
+    the exact text of pformat (DRIFT when they do not; values outside the model are skipped)."""
+    q = chk.tier == 'quick'
+    rng = chk.rng
+    cases = []
+    meta = {}
+    pool = vals if len(vals) < (1500 if q else 20000) else rng.sample(vals, 1500 if q else 20000)
+    for v in pool:
+        for _ in range(2 if q else 4):
+            w = rng.choice([1, 5, 10, 20, 30, 40, 60, 79, 120])
+            cfg = {'width': w, 'ribbon_width': rng.choice([1, max(1, w // 2), w, 200]), 'indent': rng.choice([1, 2, 4, 8]),
+                   'sort_dict_keys': rng.random() < 0.3, 'depth': rng.choice([None, None, None, 0, 1, 2]),
+                   'max_seq_len': 1000}
+            try:
+                with warnings.catch_warnings():
+                    warnings.simplefilter('ignore')
+                    with common.time_limit(20):
+                        out = P.pformat(v, **cfg)
+            except (Exception, common.Timeout):
+                continue
+            cid = len(cases) + 1
+            cases.append({'id': cid, 'val': model_term(v, cfg['sort_dict_keys']), 'indent': cfg['indent'], 'width': w,
+                          'depth': -1 if cfg['depth'] is None else cfg['depth'], 'ribbon': cfg['ribbon_width'],
+                          'msl': 1000, 'text': pyterm.codes(out)})
+            meta[cid] = {'value': repr(v)[:200], 'config': cfg, 'output': out[:300]}
+    v, st = common.tlc_batch('PrintersTrace', CFG, cases, os.path.join(chk.workdir, 'printers'), tags=('MODEL', 'SKIP'),
+                             min_per_shard=200, heap='3g')
+    chk.add_model(st)
+    nm = ns = nd = 0
+    for c in cases:
+        if c['id'] in v['MODEL']:
+            nm += 1
+        elif c['id'] in v['SKIP']:
+            ns += 1
+        else:
+            nd += 1
+            chk.drifted('Printers.tla + LayoutImpl.tla predict a different text for %r' % (meta[c['id']],))
+    chk.cov['printers_model'] = {'predicted_exactly': nm, 'outside_model': ns, 'drift': nd}
+    chk.stage('tlc.predict Printers+LayoutImpl', cases=len(cases), predicted_exactly=nm, outside_model=ns, drift=nd,
+              states=st['distinct'], wall=round(st['wall'], 1))
 
 
 def eval_sorted(v):
